@@ -19,4 +19,4 @@ one() {
   git -C /repo worktree remove --force $WT 2>/dev/null
 }
 export -f one; export OUT
-ls /verif/seeded | grep -v README | xargs -P $J -I{} bash -c 'one {}'
+ls /verif/seeded | grep -v README | grep -v REGRESSION | grep -E "${SEEDREG_FILTER:-.}" | xargs -P $J -I{} bash -c 'one {}'
